@@ -168,20 +168,7 @@ def all_cases(tier):
     return cases
 
 
-def run(tier, seed):
-    from .. import hsrun
-    acc = core.Acc(ID, predicates=PREDICATES)
-    cases = all_cases(tier)
-    nslices = 12 if tier == "quick" else 16
-    hashseeds = [0, 1] if tier == "quick" else [0, 1, 2, 3]
-    # the hash seeds are fixed (not derived from VERIF_SEED): what is explored must not depend on the seed
-    slices = [cases[i::nslices] for i in range(nslices)]
-    work = tempfile.mkdtemp(prefix="c19_", dir=os.environ.get("VERIF_SCRATCH", "/var/tmp"))
-    try:
-        args = [{"cases": sl, "honesty": True} for sl in slices]
-        res = hsrun.launch("vt.props.c19", "batch", args, hashseeds, work)
-    finally:
-        shutil.rmtree(work, ignore_errors=True)
+def judge(acc, res):
     ref = {}
     for (hs, i), items in sorted(res.items()):
         for it in items:
@@ -204,6 +191,23 @@ def run(tier, seed):
             acc.state(core.h64(core.jdump(it["sig"]["hof"])))
             if it["nontrivial"]:
                 acc.nontriv(key)
+
+
+def run(tier, seed):
+    from .. import hsrun
+    acc = core.Acc(ID, predicates=PREDICATES)
+    cases = all_cases(tier)
+    nslices = 12 if tier == "quick" else 16
+    hashseeds = [0, 1] if tier == "quick" else [0, 1, 2, 3]
+    # the hash seeds are fixed (not derived from VERIF_SEED): what is explored must not depend on the seed
+    slices = [cases[i::nslices] for i in range(nslices)]
+    work = tempfile.mkdtemp(prefix="c19_", dir=os.environ.get("VERIF_SCRATCH", "/var/tmp"))
+    try:
+        args = [{"cases": sl, "honesty": True} for sl in slices]
+        res = hsrun.launch("vt.props.c19", "batch", args, hashseeds, work)
+    finally:
+        shutil.rmtree(work, ignore_errors=True)
+    judge(acc, res)
     acc.counters["hash_seeds"] = len(hashseeds)
     # fully owned tiny configuration, in this process
     tiny = core.run_pool("vt.props.c19", [{"kind": "tiny", "solver": k, "target": t} for k in ("evo", "hyb") for t in ("linear3", "cycle4")], tier)
@@ -242,7 +246,13 @@ def run_shard(shard, tier, acc):
                 return ("exc", e, None)
         return ("ok", s, best)
     dev = 2 if tier == "quick" else 3
-    for ch, (status, s, best) in explore(body, dev_bound=dev, max_exec=1200 if tier == "quick" else 20000):
+    if shard.get("answers") is not None:
+        from ..explore import Chooser
+        one = Chooser(list(shard["answers"]))
+        runs = [(one, body(one))]
+    else:
+        runs = explore(body, dev_bound=dev, max_exec=1200 if tier == "quick" else 20000)
+    for ch, (status, s, best) in runs:
         acc.evaluations += 1
         acc.transitions += 2
         case = {"solver": kind, "target": tname, "setting": st, "answers": ch.choices}
@@ -267,17 +277,23 @@ def run_shard(shard, tier, acc):
         acc.state(core.h64(core.jdump(scores)))
         if len({c.to_openqasm() for _, c in s.hof if c is not None}) >= 2:
             acc.nontriv(tuple(ch.choices))
-    if explore.capped:
+    if shard.get("answers") is None and explore.capped:
         acc.counters["tiny_capped"] += 1
 
 
 def replay_case(case, acc):
     if "answers" in case:
-        raise core.HarnessError("replay tiny cases with ./check C19 quick")
-    checks = []
-    run_once(case["solver"], case["target"], case["setting"], case["seed"], checks=checks)
-    for sub, sym, det in checks:
-        acc.violation(sub, case["solver"], sym, case, "honest ordered results", det)
+        run_shard({"kind": "tiny", "solver": case["solver"], "target": case["target"], "answers": case["answers"]}, "quick", acc)
+        return
+    from .. import hsrun
+    base = {k: case[k] for k in ("solver", "target", "setting", "seed")}
+    hashseeds = sorted(set([0, 1] + list(case.get("hashseeds", [])) + ([case["hashseed"]] if "hashseed" in case else [])))
+    work = tempfile.mkdtemp(prefix="c19r_", dir=os.environ.get("VERIF_SCRATCH", "/var/tmp"))
+    try:
+        res = hsrun.launch("vt.props.c19", "batch", [{"cases": [base], "honesty": True}], hashseeds, work)
+    finally:
+        shutil.rmtree(work, ignore_errors=True)
+    judge(acc, res)
 
 
 PREDICATES = {}
